@@ -100,6 +100,9 @@ func (v *V) tryMerge(states []*State) (res *State) {
 			panic(r)
 		}
 	}()
+	if v.spec != nil && v.spec.NoMerge {
+		return nil
+	}
 	if quantDelta(states) {
 		// branch-specific quantified facts (frames, closures, quantified contract clauses) would end
 		// up under a disjunction, out of reach of instantiation: keep the paths apart instead
